@@ -341,6 +341,14 @@ def pairwiseSimpleCases (tagp : String) : Array Case := Id.run do
       let c := parseCase s!"{tagp}-ps{k}" "pairwise-components" s
       out := out.push { c with note := Json.mkObj [("kf", ("" : Json))] }
       k := k + 1
+  -- every symbol with two suffixed annotations (a combination and a single value)
+  for x in Sym.simples do
+    let other : Part := if x.name = str "I" then .ann { sym := Sym.A } true (.leaf (str "actor")) else .ann { sym := Sym.I } true (.leaf (str "acts"))
+    let s := Stmt.mk [other, Part.ann { sym := x, sfx := some ['1'] } true (.comb .OR (.leaf (str "first one")) (.leaf (str "first two"))),
+                      Part.ann { sym := x, sfx := some ['2'] } true (.leaf (str "second value"))]
+    let c := parseCase s!"{tagp}-sx{k}" "per-symbol-suffixed" s
+    out := out.push { c with note := Json.mkObj [("kf", ("" : Json))] }
+    k := k + 1
   pure out
 
 end Drv
